@@ -372,7 +372,7 @@ def run_case(case, pool):
     return out
 
 
-REP_QUICK_SAMPLE = {"dens": 1500, "temp": 1000, "burn": 1400, "kind": 1000, "tri": 2000, "cyl": 1500, "cyl3": 800, "lfp": 400, "ord": 400, "perm": 600}
+REP_QUICK_SAMPLE = {"dens": 1200, "temp": 800, "burn": 1200, "kind": 800, "tri": 1600, "cyl": 1200, "cyl3": 600, "lfp": 300, "ord": 300, "perm": 600}
 
 
 def check_rep(rep, tier, seed):
